@@ -80,6 +80,9 @@ func DrawSchemaSpec(t *rapid.T, label string, family int) *Spec {
 				continue
 			}
 			cut := rapid.IntRange(1, len(d)-1).Draw(t, label+"Cut")
+			if rapid.Bool().Draw(t, label+"CutNearEnd") {
+				cut = len(d) - rapid.IntRange(1, min(3, len(d)-1)).Draw(t, label+"CutFromEnd") // the schema may be violated before the text breaks
+			}
 			switch rapid.IntRange(0, 2).Draw(t, label+"MalformedKind") {
 			case 0:
 				sp.Docs = append(sp.Docs, d[:cut])
